@@ -24,6 +24,9 @@ class UniquifiedTranslation : public CacheTranslation {
 
   an<Translation> translation_;
   CandidateList* candidates_;
+  // texts already handed out; a filter applied after the uniquifier may hold
+  // them in its own queue before they reach *candidates_.
+  set<string> emitted_;
 };
 
 bool UniquifiedTranslation::Next() {
@@ -47,8 +50,13 @@ bool UniquifiedTranslation::Uniquify() {
     CandidateList::iterator previous =
         find_text_match(next, candidates_->begin(), candidates_->end());
     if (previous == candidates_->end()) {
-      // Encountered a unique candidate.
-      return true;
+      if (emitted_.insert(next->text()).second) {
+        // Encountered a unique candidate.
+        return true;
+      }
+      // a duplicate of a candidate prefetched by a later filter: drop it.
+      CacheTranslation::Next();
+      continue;
     }
     auto uniquified = As<UniquifiedCandidate>(*previous);
     if (!uniquified) {
